@@ -63,7 +63,12 @@ func ProcessBulk(ctx context.Context, l backend.Ledger, bulk Bulk, continueOnFai
 		case ActionCreateTransaction:
 			req := &ledger.TransactionRequest{}
 			if err := json.Unmarshal(element.Data, req); err != nil {
-				return nil, errorsInBulk, fmt.Errorf("error parsing element %d: %s", i, err)
+				// a malformed element gets an error result at its position, like any other failing element
+				bulkError(element.Action, ErrValidation, fmt.Errorf("error parsing element %d: %s", i, err))
+				if !continueOnFailure {
+					return ret, errorsInBulk, nil
+				}
+				continue
 			}
 			rs := req.ToRunScript()
 
@@ -96,7 +101,12 @@ func ProcessBulk(ctx context.Context, l backend.Ledger, bulk Bulk, continueOnFai
 			}
 			req := &addMetadataRequest{}
 			if err := json.Unmarshal(element.Data, req); err != nil {
-				return nil, errorsInBulk, fmt.Errorf("error parsing element %d: %s", i, err)
+				// a malformed element gets an error result at its position, like any other failing element
+				bulkError(element.Action, ErrValidation, fmt.Errorf("error parsing element %d: %s", i, err))
+				if !continueOnFailure {
+					return ret, errorsInBulk, nil
+				}
+				continue
 			}
 
 			var targetID any
@@ -107,7 +117,12 @@ func ProcessBulk(ctx context.Context, l backend.Ledger, bulk Bulk, continueOnFai
 				targetID = big.NewInt(0)
 			}
 			if err := json.Unmarshal(req.TargetID, &targetID); err != nil {
-				return nil, errorsInBulk, err
+				// a malformed element gets an error result at its position, like any other failing element
+				bulkError(element.Action, ErrValidation, fmt.Errorf("error parsing element %d: %s", i, err))
+				if !continueOnFailure {
+					return ret, errorsInBulk, nil
+				}
+				continue
 			}
 
 			if err := l.SaveMeta(ctx, parameters, req.TargetType, targetID, req.Metadata); err != nil {
@@ -134,7 +149,12 @@ func ProcessBulk(ctx context.Context, l backend.Ledger, bulk Bulk, continueOnFai
 			}
 			req := &revertTransactionRequest{}
 			if err := json.Unmarshal(element.Data, req); err != nil {
-				return nil, errorsInBulk, fmt.Errorf("error parsing element %d: %s", i, err)
+				// a malformed element gets an error result at its position, like any other failing element
+				bulkError(element.Action, ErrValidation, fmt.Errorf("error parsing element %d: %s", i, err))
+				if !continueOnFailure {
+					return ret, errorsInBulk, nil
+				}
+				continue
 			}
 
 			tx, err := l.RevertTransaction(ctx, parameters, req.ID, req.Force)
@@ -164,7 +184,12 @@ func ProcessBulk(ctx context.Context, l backend.Ledger, bulk Bulk, continueOnFai
 			}
 			req := &deleteMetadataRequest{}
 			if err := json.Unmarshal(element.Data, req); err != nil {
-				return nil, errorsInBulk, fmt.Errorf("error parsing element %d: %s", i, err)
+				// a malformed element gets an error result at its position, like any other failing element
+				bulkError(element.Action, ErrValidation, fmt.Errorf("error parsing element %d: %s", i, err))
+				if !continueOnFailure {
+					return ret, errorsInBulk, nil
+				}
+				continue
 			}
 
 			var targetID any
@@ -175,7 +200,12 @@ func ProcessBulk(ctx context.Context, l backend.Ledger, bulk Bulk, continueOnFai
 				targetID = big.NewInt(0)
 			}
 			if err := json.Unmarshal(req.TargetID, &targetID); err != nil {
-				return nil, errorsInBulk, err
+				// a malformed element gets an error result at its position, like any other failing element
+				bulkError(element.Action, ErrValidation, fmt.Errorf("error parsing element %d: %s", i, err))
+				if !continueOnFailure {
+					return ret, errorsInBulk, nil
+				}
+				continue
 			}
 
 			err := l.DeleteMetadata(ctx, parameters, req.TargetType, targetID, req.Key)
